@@ -6,6 +6,7 @@ import (
 	"encoding/hex"
 	"errors"
 	"fmt"
+	"sort"
 
 	"github.com/vapourismo/knx-go/knx"
 	"github.com/vapourismo/knx-go/knx/cemi"
@@ -104,7 +105,16 @@ func c12FullStack(mode int) func() {
 			in, closeFn = gt.Inbound(), gt.Close
 		}
 		done := mc.NewChan[int](1, "c12full.done")
+		// the application may be busy elsewhere for a second (longer than every timeout of the client)
+		// while the telegrams arrive: they are all acknowledged, so they must all still surface
+		away := mc.Choose(2, mc.Free) == 1
+		if away {
+			mc.Log(Note("application away"))
+		}
 		mc.GoEnv("app", func() {
+			if away {
+				mc.Sleep(1000 * ms)
+			}
 			for {
 				ev, ok := in.Recv2()
 				if !ok {
@@ -161,6 +171,9 @@ func c12FullStack(mode int) func() {
 			mc.Sleep(10 * ms)
 		}
 		mc.Sleep(50 * ms)
+		if away {
+			mc.Sleep(1000 * ms)
+		}
 		closeFn()
 		done.Recv()
 	}
@@ -169,6 +182,7 @@ func c12FullStack(mode int) func() {
 func c12FullOracle(tr *mc.Trace) []h.Violation {
 	vs := generic(tr, "C12", true)
 	var want, got []string
+	away := false
 	for _, e := range tr.Log {
 		switch x := e.V.(type) {
 		case Injected:
@@ -176,8 +190,18 @@ func c12FullOracle(tr *mc.Trace) []h.Violation {
 		case GroupRx:
 			got = append(got, fmt.Sprintf("%#04x %s", x.Dst, x.Hex))
 		case Note:
+			if x == "application away" {
+				away = true
+				continue
+			}
 			vs = append(vs, h.Violation{Class: "C12:fullstack-setup", Msg: string(x)})
 		}
+	}
+	if away {
+		// telegrams that had to wait for the application may be handed over in another order (the
+		// order is C17's subject); here: the same telegrams, each once
+		sort.Strings(want)
+		sort.Strings(got)
 	}
 	for i := 0; i < len(want) || i < len(got); i++ {
 		var a, b string
